@@ -396,6 +396,16 @@ def fast_path_guard(an, fn, node, data_expr, avoid=None):
     if not good:
         return False, "isinstance guard present but no identity test of the item/dict field"
     # the data must be x itself or elements obtained by iterating x
+    if isinstance(data_expr, ast.Name) and data_expr.id in good and not avoid:
+        # the guarded local itself (`source = iterable or []` ... guard on source ... list.__init__(self, source)): the same
+        # definitions reach the guard and the use
+        from engine.defuse import reaching_defs
+        rd_ = reaching_defs(fn)
+        tests_ = [t for e, truth, t in atoms if truth and isinstance(e, ast.Call) and isinstance(e.func, ast.Name) and e.func.id == "isinstance"
+                  and isinstance(e.args[0], ast.Name) and e.args[0].id == data_expr.id]
+        here = {id(d) for d in rd_.reaching(node, data_expr.id)}
+        if tests_ and all({id(d) for d in rd_.reaching(t, data_expr.id)} == here for t in tests_):
+            return True, "same-field proxy fast path: elements were validated by the same field when they entered %s" % sorted(good)
     for kind, payload in value_sources(fn, data_expr, node):
         if kind == "param" and payload in good:
             continue
@@ -495,6 +505,11 @@ def arg_validated(an, fn, expr, node, form, depth=0, use_node=None):
         defs = rd.reaching(node, expr.id)
         if not defs:
             return False, "%s has no local definition" % expr.id
+        if node is use_node and not all(d.kind == "param" for d in defs):
+            # the local itself may be what the fast-path guard was established on (`source = iterable or []`; guard on source)
+            ok0, why0 = fast_path_guard(an, fn, use_node, expr)
+            if ok0:
+                return ok0, why0
         whys = []
         for d in defs:
             if d.kind == "assign" and d.value is not None:
